@@ -4,10 +4,16 @@ Model: lean/PypyrModel/Cmd.lean (`cmd.serial`, `cmd.async` driver ops); theorems
 Implementation: the real steps pypyr.steps.{cmd,shell,cmds,shells} on real subprocesses under an
 explicit release protocol (harness/impl_c17.py). Monitors below are written from the property text
 and look only at the case and at what the implementation did.
+
+A command's outcome is one of: exit 0 / a positive exit code / a NEGATIVE return code (the command
+kills itself with a signal) / it cannot be started at all (no such executable, file not executable,
+instruction that cannot be split into arguments, missing cwd of its map).
 """
 from __future__ import annotations
 
+import copy
 import itertools
+import json
 import multiprocessing
 import os
 
@@ -16,29 +22,67 @@ from .. import impl_c17 as impl
 
 LEAN_MODULES = ['Props.C17']
 TRUSTED = ['harness/props/c17.py, harness/impl_c17.py (child script, release protocol, monitors, canonicaliser)',
-           'CPython subprocess / asyncio subprocess / shlex, /bin/sh, OS process exit status']
+           'CPython subprocess / asyncio subprocess / shlex, /bin/sh, OS process exit status and signal delivery']
 ASSUMPTIONS = [
-    'a spawned command is characterised by its exit code and the ASCII text it writes; signals, negative '
-    'return codes, unspawnable executables, cwd, output redirection to files and non-default encodings are '
-    'outside the model',
+    'a command is characterised by whether it can be started (else: the exception type of the spawn call), its '
+    'exit status (0, 1..255, or -N for death by signal N) and the ASCII text it writes; output redirection to '
+    'files and non-default encodings are outside the model',
     'OS scheduling of concurrent commands is replaced by the release protocol: completion order = the order in '
     'which the harness lets the processes exit (each exit is awaited, incl. reaping, before the next release)',
+    'under a shell (shell/shells) a missing or non-executable program is an ordinary exit 127/126 of the shell, '
+    'not a spawn error: there the only unstartable commands generated are those of a map with a missing cwd',
 ]
 
 OUTS = ['', 'out', 'two words\n', '  padded  \n\n', 'l1\nl2\n', ' \n', 'x=1 "q"\t\n']
 CODES = (0, 1, 3)
+SIGNALS = (-9, -15, -2)            # SIGKILL, SIGTERM, SIGINT
+EXEC_FAULTS = ('missing', 'noexec', 'badquote', 'cwd')
+FAULTS_EXEC = SIGNALS + EXEC_FAULTS          # cmd / cmds
+FAULTS_SHELL = SIGNALS + ('cwd',)            # shell / shells
 
 
 # --------------------------------------------------------------------------
 # case generation
 # --------------------------------------------------------------------------
 
-def mk_procs(codes, salt):
-    ps = []
-    for k, c in enumerate(codes):
-        ps.append({'id': k + 1, 'code': c, 'out': OUTS[(salt + 2 * k) % len(OUTS)],
-                   'err': OUTS[(salt + 3 * k + 1) % len(OUTS)]})
-    return ps
+def mk_proc(i, o, salt, k):
+    """o: an exit status (int) or the name of a spawn fault."""
+    if isinstance(o, str):
+        return {'id': i, 'code': 0, 'out': '', 'err': '', 'spawn': o}
+    return {'id': i, 'code': o, 'out': OUTS[(salt + 2 * k) % len(OUTS)], 'err': OUTS[(salt + 3 * k + 1) % len(OUTS)]}
+
+
+def mk_procs(outcomes, salt):
+    return [mk_proc(k + 1, o, salt, k) for k, o in enumerate(outcomes)]
+
+
+def norm_cfg(cfg):
+    """Make a generated configuration realisable: a `cwd` fault belongs to an expanded-syntax map and
+    makes *every* command of that map unstartable (they share the missing cwd). Returns a deep copy."""
+    cfg = copy.deepcopy(cfg)
+
+    def fix_map(m):
+        ps = impl.map_procs(m)
+        if any(p.get('spawn') == 'cwd' for p in ps):
+            key = min(p['id'] for p in ps)
+            for p in ps:
+                p.update({'code': 0, 'out': '', 'err': '', 'spawn': 'cwd', 'cwdkey': key})
+
+    def fix_item(it):
+        if 'map' in it:
+            fix_map(it['map'])
+            return it
+        if 'str' in it and it['str'].get('spawn') == 'cwd':
+            it = {'map': {'run': {'str': it['str']}}}
+            fix_map(it['map'])
+        elif 'sub' in it and any(p.get('spawn') == 'cwd' for p in it['sub']):
+            it = {'map': {'run': {'list': [{'sub': it['sub']}]}}}
+            fix_map(it['map'])
+        return it
+    if 'list' in cfg:
+        cfg['list'] = [fix_item(it) for it in cfg['list']]
+        return cfg
+    return fix_item(cfg)
 
 
 def serial_shapes(ps, n):
@@ -63,6 +107,16 @@ def serial_shapes(ps, n):
         out.append(('mixed', {'list': items}))
         items = [{'str': ps[0]}, {'map': {'run': {'list': ps[1:]}, 'save': True}}]
         out.append(('mixed2', {'list': items}))
+        # several list entries, each with its own save flag: [save, no save, save+bytes, ...], run lists of <= 2
+        items = []
+        for k in range(0, n, 2):
+            chunk = ps[k:k + 2]
+            save = (k // 2) % 2 == 0
+            items.append({'map': {'run': {'list': chunk} if len(chunk) > 1 else {'str': chunk[0]},
+                                  'save': save, 'bytes': save and k >= 4}})
+        out.append(('ownsave', {'list': items}))
+        items = [{'map': {'run': {'str': ps[0]}, 'save': False}}, {'map': {'run': {'list': ps[1:]}, 'save': True}}]
+        out.append(('ownsave2', {'list': items}))
     return out
 
 
@@ -81,6 +135,34 @@ def serial_cases(env):
                 for st in steps:
                     cases.append({'kind': 'serial', 'step': st, 'shape': shape, 'n': n, 'cfg': cfg})
     return cases
+
+
+def fault_vectors(n, faults):
+    """One fault at each position of n commands; the others exit 0 - and, so that a loop that wrongly goes
+    on is seen twice (a marker *and* a second failure), a variant whose last command exits 1."""
+    for pos in range(n):
+        for f in faults:
+            v = [0] * n
+            v[pos] = f
+            yield pos, f, v
+            if pos < n - 1:
+                w = list(v)
+                w[n - 1] = 1
+                yield pos, f, w
+
+
+def serial_fault_cases(env):
+    """Directed: a signal death / an unstartable command at each position (first, middle, last) of 1-4
+    commands x every configuration shape x cmd (all faults) and shell (signals, missing cwd)."""
+    cases = []
+    for st, faults in (('cmd', FAULTS_EXEC), ('shell', FAULTS_SHELL)):
+        for n in range(1, 5):
+            for vi, (pos, f, v) in enumerate(fault_vectors(n, faults)):
+                ps = mk_procs(v, vi + 1)
+                for shape, cfg in serial_shapes(ps, n):
+                    cases.append({'kind': 'serial', 'step': st, 'shape': shape, 'n': n, 'cfg': norm_cfg(cfg),
+                                  'fault': fault_name(f), 'pos': pos_name(pos, n)})
+    return dedup(cases)
 
 
 def lane_partitions(n):
@@ -118,6 +200,9 @@ def async_shapes(lanes, salt):
         # a one-element sub-list is also a serial lane
         items = [({'sub': l} if k == 0 else entry(l)) for k, l in enumerate(lanes)]
         out.append(('toplist+sub1', {'list': items}))
+        # every lane its own map with its own save flag
+        items = [{'map': {'run': {'list': [entry(l)]}, 'save': (k + salt) % 2 == 0}} for k, l in enumerate(lanes)]
+        out.append(('ownsave', {'list': items}))
     return out
 
 
@@ -143,6 +228,14 @@ def schedules(lens, full):
     return res
 
 
+def cut(ps, part):
+    lanes, k = [], 0
+    for ln in part:
+        lanes.append(ps[k:k + ln])
+        k += ln
+    return lanes
+
+
 def async_cases(env):
     cases = []
     for n in range(1, 5):
@@ -150,10 +243,7 @@ def async_cases(env):
             nl = len(part)
             for vi, codes in enumerate(itertools.product(CODES, repeat=n)):
                 ps = mk_procs(codes, vi)
-                lanes, k = [], 0
-                for ln in part:
-                    lanes.append(ps[k:k + ln])
-                    k += ln
+                lanes = cut(ps, part)
                 shapes = async_shapes(lanes, vi)
                 scheds = schedules(part, full=True)
                 if n <= 2:
@@ -171,29 +261,94 @@ def async_cases(env):
     return cases
 
 
+def async_fault_cases(env):
+    """Directed: a signal death / an unstartable command at each position of every cut of 1-4 commands into
+    lanes (top level, and first / middle / last of a serial sub-list) x every shape; the completion schedule
+    rotates through the lane permutations. cmds: all faults; shells: signals and missing cwd."""
+    cases = []
+    j = 0
+    for st, faults in (('cmds', FAULTS_EXEC), ('shells', FAULTS_SHELL)):
+        for n in range(1, 5):
+            for part in lane_partitions(n):
+                scheds = schedules(part, full=True)
+                for vi, (pos, f, v) in enumerate(fault_vectors(n, faults)):
+                    ps = mk_procs(v, vi + 2)
+                    lanes = cut(ps, part)
+                    # where the fault sits
+                    k, where = 0, 'top'
+                    for ln in part:
+                        if k <= pos < k + ln and ln > 1:
+                            where = 'sub:' + pos_name(pos - k, ln)
+                        k += ln
+                    for shape, cfg in async_shapes(lanes, vi):
+                        j += 1
+                        cases.append({'kind': 'async', 'step': st, 'shape': shape, 'n': n, 'lanes': len(part),
+                                      'cfg': norm_cfg(cfg), 'sched': scheds[j % len(scheds)],
+                                      'fault': fault_name(f), 'pos': where})
+    return dedup(cases)
+
+
+def fault_name(f):
+    if isinstance(f, str):
+        return 'unstartable:' + f
+    return 'signal' if f < 0 else ('exit>0' if f > 0 else 'none')
+
+
+def pos_name(pos, n):
+    if n == 1:
+        return 'only'
+    return 'first' if pos == 0 else ('last' if pos == n - 1 else 'middle')
+
+
+def dedup(cases):
+    seen, out = set(), []
+    for c in cases:
+        k = json.dumps([c['step'], c['cfg'], c.get('sched')], sort_keys=True)
+        if k not in seen:
+            seen.add(k)
+            out.append(c)
+    return out
+
+
+def rnd_outcome(rng, shell):
+    r = rng.random()
+    if r < 0.45:
+        return 0
+    if r < 0.65:
+        return rng.choice((1, 2, 3, 255))
+    if r < 0.82:
+        return rng.choice((-9, -15, -2, -1))
+    return 'cwd' if shell else rng.choice(EXEC_FAULTS)
+
+
 def random_cases(env, count):
-    """Random stream: random lane structure, codes, outputs, settings and arbitrary schedules
-    (repeats, out-of-range lanes: the model ignores what cannot happen, the drain finishes)."""
+    """Random stream: random lane structure, outcomes (exit 0 / positive / signal / unstartable, any number of
+    them), outputs, settings and arbitrary schedules (repeats, out-of-range lanes: the model ignores what
+    cannot happen, the drain finishes)."""
     rng = env.rng
     cases = []
     for _ in range(count):
         n = rng.randint(1, 4)
-        ps = [{'id': k + 1, 'code': rng.choice((0, 0, 1, 3, 2, 255)), 'out': rng.choice(OUTS), 'err': rng.choice(OUTS)}
-              for k in range(n)]
-        if rng.random() < 0.4:
-            shapes = serial_shapes(ps, n)
-            shape, cfg = rng.choice(shapes)
-            cases.append({'kind': 'serial', 'step': rng.choice(('cmd', 'shell')), 'shape': 'rnd:' + shape, 'n': n, 'cfg': cfg})
+        serial = rng.random() < 0.4
+        step = rng.choice(('cmd', 'shell')) if serial else rng.choice(('cmds', 'shells'))
+        shell = step in ('shell', 'shells')
+        ps = []
+        for k in range(n):
+            o = rnd_outcome(rng, shell)
+            p = mk_proc(k + 1, o, 0, 0)
+            if not isinstance(o, str):
+                p['out'], p['err'] = rng.choice(OUTS), rng.choice(OUTS)
+            ps.append(p)
+        if serial:
+            shape, cfg = rng.choice(serial_shapes(ps, n))
+            cases.append({'kind': 'serial', 'step': step, 'shape': 'rnd:' + shape, 'n': n, 'cfg': norm_cfg(cfg)})
         else:
             part = rng.choice(list(lane_partitions(n)))
-            lanes, k = [], 0
-            for ln in part:
-                lanes.append(ps[k:k + ln])
-                k += ln
+            lanes = cut(ps, part)
             shape, cfg = rng.choice(async_shapes(lanes, rng.randint(0, 9)))
             sched = [rng.randint(0, len(part)) for _ in range(rng.randint(0, 2 * n))]
-            cases.append({'kind': 'async', 'step': rng.choice(('cmds', 'shells')), 'shape': 'rnd:' + shape, 'n': n,
-                          'lanes': len(part), 'cfg': cfg, 'sched': sched})
+            cases.append({'kind': 'async', 'step': step, 'shape': 'rnd:' + shape, 'n': n,
+                          'lanes': len(part), 'cfg': norm_cfg(cfg), 'sched': sched})
     return cases
 
 
@@ -207,22 +362,37 @@ def model_requests(case):
     return ('cmd.async', {'cmds': impl.async_model_cmds(case['cfg']), 'sched': case['sched']})
 
 
+def case_procs(case):
+    return impl.all_procs_serial(case['cfg']) if case['kind'] == 'serial' else impl.all_procs_async(case['cfg'])
+
+
 def model_view(case, m):
     """Bring the model's observation to the shape of the implementation's."""
+    procs = case_procs(case)
+
     def res(r):
         return {**r, 'cmd_ok': True}
+
+    def err(e, exit_type):
+        if 'spawn' in e:
+            return {'spawn': impl.spawn_label(procs[e['id']]), 'type': impl.KIND_TYPE[e['spawn']]}
+        return {**e, 'type': exit_type, 'cmd_ok': True}
+
+    def item(i):
+        # the implementation side renders a result as its fields and an exception as {'exc': ...}
+        return res(i['res']) if 'res' in i else {'exc': err(i['exc'], None)}
     if case['kind'] == 'serial':
-        err = None
+        e = None
         if m['err'] is not None:
-            err = {**m['err'], 'type': 'subprocess.CalledProcessError', 'cmd_ok': True}
+            e = err(m['err'], 'subprocess.CalledProcessError')
         co = m['cmdOut']
         if co is not None:
             co = {'single': res(co['single'])} if 'single' in co else {'many': [res(r) for r in co['many']]}
-        return {'started': m['started'], 'err': err, 'results': [res(r) for r in m['results']], 'cmdOut': co}
+        return {'started': m['started'], 'err': e, 'results': [res(r) for r in m['results']], 'cmdOut': co}
     co = m['cmdOut']
     if co is not None:
-        co = [({'res': res(s['res'])} if 'res' in s else {'sub': [res(r) for r in s['sub']]}) for s in co]
-    errors = [{**e, 'type': 'pypyr.errors.SubprocessError', 'cmd_ok': True} for e in m['errors']]
+        co = [({'res': item(s['one'])} if 'one' in s else {'sub': [item(i) for i in s['sub']]}) for s in co]
+    errors = [err(e, 'pypyr.errors.SubprocessError') for e in m['errors']]
     return {'trace': impl.canon_trace(m['trace']), 'started': sorted(m['started']),
             'err_type': 'pypyr.errors.MultiError' if errors else None, 'errors': errors, 'cmdOut': co,
             'anomalies': []}
@@ -254,13 +424,45 @@ def stream_text(o):
     return o.get('t', o.get('b'))
 
 
-def prefix_through_first_failure(ps):
+def failed(p):
+    """Did not exit 0: a non-zero status - of either sign - or could not be started."""
+    return bool(p.get('spawn')) or p['code'] != 0
+
+
+def attempted_prefix(ps):
+    """Serial execution: declaration prefix up to and including the first command that did not exit 0."""
     out = []
     for p in ps:
         out.append(p)
-        if p['code'] != 0:
+        if failed(p):
             break
     return out
+
+
+def actually_run(ps):
+    """... of which the ones for which a process existed."""
+    return [p for p in attempted_prefix(ps) if not p.get('spawn')]
+
+
+def fault_of(p):
+    if p.get('spawn'):
+        return 'unstartable:' + p['spawn']
+    return 'signal' if p['code'] < 0 else ('exit>0' if p['code'] > 0 else 'none')
+
+
+def failure_key(p):
+    """What the error for a failed command must carry."""
+    if p.get('spawn'):
+        return ('spawn', impl.spawn_label(p), impl.KIND_TYPE[impl.SPAWN_KIND[p['spawn']]])
+    return ('exit', p['id'], p['code'])
+
+
+def error_key(e):
+    if 'spawn' in e:
+        return ('spawn', e['spawn'], e.get('type'))
+    if 'id' in e:
+        return ('exit', e['id'], e.get('code'))
+    return ('other', e.get('type'), e.get('msg'))
 
 
 def check_results(got, want, where):
@@ -282,22 +484,27 @@ def check_results(got, want, where):
 def monitor_serial(case, o):
     decls = impl.serial_decls(case['cfg'])
     procs = [p for p, _, _ in decls]
-    run = prefix_through_first_failure(procs)
+    att = attempted_prefix(procs)
+    run = actually_run(procs)
     bad = []
     if o['started'] != [p['id'] for p in run]:
         bad.append(('serial:started-not-declaration-prefix-through-first-failure',
-                    f"started {o['started']}, declaration {[(p['id'], p['code']) for p in procs]}"))
+                    f"started {o['started']}, declaration {[(p['id'], fault_of(p), p['code']) for p in procs]}"))
     by_id = {p['id']: p for p in procs}
-    ran_all_zero = all(by_id[i]['code'] == 0 for i in o['started'] if i in by_id)
-    if (o['err'] is None) != ran_all_zero:
-        bad.append(('serial:success-iff-all-exit-0', f"error={o['err']} but exit codes of commands run = "
-                    f"{[by_id[i]['code'] for i in o['started'] if i in by_id]}"))
+    # success iff every command it ran exited 0 - judged on what it did run (marker files) and on what it had
+    # to attempt (a command that cannot be started has not exited 0 either)
+    ran_nonzero = [(i, by_id[i]['code']) for i in o['started'] if i in by_id and by_id[i]['code'] != 0]
+    should_fail = any(failed(p) for p in att)
+    if (o['err'] is None) == should_fail or (o['err'] is None and ran_nonzero):
+        bad.append(('serial:success-iff-all-exit-0', f"error={o['err']}; commands run that exited non-zero {ran_nonzero}; "
+                    f"outcomes of the commands to attempt = {[(p['id'], fault_of(p), p['code']) for p in att]}"))
     if o['err'] is not None:
-        ff = next((p for p in procs if p['code'] != 0), None)
-        if ff is None or o['err'].get('id') != ff['id'] or o['err'].get('code') != ff['code'] or not o['err'].get('cmd_ok'):
+        ff = next((p for p in procs if failed(p)), None)
+        if ff is None or error_key(o['err']) != failure_key(ff) or \
+                ('id' in o['err'] and (not o['err'].get('cmd_ok') or o['err'].get('type') != 'subprocess.CalledProcessError')):
             bad.append(('serial:error-carries-first-failing-command-and-code',
-                        f"error {o['err']}, first failure {ff and (ff['id'], ff['code'])}"))
-    want = [(p, t) for (p, s, t) in decls if s and p['id'] in o['started']]
+                        f"error {o['err']}, first failure {ff and failure_key(ff)}"))
+    want = [(p, t) for (p, s, t) in decls if s and p['id'] in o['started'] and not p.get('spawn')]
     bad += check_results(o['results'], want, 'serial')
     return bad
 
@@ -314,21 +521,22 @@ def monitor_async(case, o):
             pass    # reported as not_started_concurrently
         else:
             bad.append(('async:protocol:' + a[0], str(a[1:])))
-    want_started, want_fail, want_res = [], [], []
+    want_started, want_fail, want_res, want_exc = [], [], [], []
     for ps, save, text in lanes:
-        run = prefix_through_first_failure(ps)
+        att = attempted_prefix(ps)
+        run = actually_run(ps)
         want_started += [p['id'] for p in run]
-        want_fail += [(p['id'], p['code']) for p in run if p['code'] != 0]
+        want_fail += [failure_key(p) for p in att if failed(p)]
         if save:
             want_res += [(p, text) for p in run]
+            want_exc += [failure_key(p)[:2] for p in att if p.get('spawn')]
     if o['started'] != sorted(want_started):
         bad.append(('async:started-set', f"started {o['started']}, expected {sorted(want_started)}"))
-    got_fail = sorted((e.get('id'), e.get('code')) for e in o['errors'] if 'id' in e)
-    other = [e for e in o['errors'] if 'id' not in e]
-    if other:
-        bad.append(('async:unexpected-error', str(other)[:300]))
+    got_fail = sorted(error_key(e) for e in o['errors'])
+    if any(k[0] == 'other' for k in got_fail):
+        bad.append(('async:unexpected-error', str([e for e in o['errors'] if error_key(e)[0] == 'other'])[:300]))
     elif got_fail != sorted(want_fail) or (o['err_type'] is None) != (not want_fail) or \
-            any(not e.get('cmd_ok') for e in o['errors']):
+            any('id' in e and not e.get('cmd_ok') for e in o['errors']):
         bad.append(('async:aggregate-error-lists-every-failure',
                     f"error {o['err_type']} lists {got_fail}, failures {sorted(want_fail)}"))
     elif want_fail and o['err_type'] != 'pypyr.errors.MultiError':
@@ -340,11 +548,25 @@ def monitor_async(case, o):
         flat = []
         for s in co or []:
             flat += [s['res']] if 'res' in s else list(s['sub'])
-        if any('id' not in r for r in flat):
+        results = [r for r in flat if 'exc' not in r]
+        excs = [r['exc'] for r in flat if 'exc' in r]
+        if any('id' not in r for r in results):
             bad.append(('async:cmdOut-holds-non-result', str(flat)[:300]))
         else:
-            bad += check_results(flat, want_res, 'async')
+            bad += check_results(results, want_res, 'async')
+        # anything else in cmdOut can only be the exception of a command that could not be started
+        if sorted(error_key(e)[:2] for e in excs) != sorted(want_exc):
+            bad.append(('async:cmdOut-exception-entries', f'{excs}, unstartable commands of save commands {want_exc}'))
     return bad
+
+
+def case_fault(case):
+    """Kinds of failure in the case, for counters and signatures."""
+    if case['kind'] == 'serial':
+        fs = [fault_of(p) for p in attempted_prefix([p for p, _, _ in impl.serial_decls(case['cfg'])]) if failed(p)]
+    else:
+        fs = [fault_of(p) for ps, _, _ in impl.async_lanes(case['cfg']) for p in attempted_prefix(ps) if failed(p)]
+    return '+'.join(sorted(set(fs))) or 'none'
 
 
 # --------------------------------------------------------------------------
@@ -383,40 +605,65 @@ def judge(res, c, m, o):
     mv, iv = model_view(c, m), impl_view(c, o)
     failing = bool(mv.get('err') or mv.get('errors'))
     nstart = len(mv['started'])
+    fault = case_fault(c)
     res.case(c, nontrivial=True)
     res.count(f"{c['kind']}:{c['step']}")
     res.count('shape:' + c['shape'].split('/')[0])
     res.count('outcome:' + ('error' if failing else 'ok'))
     res.count(f'started:{nstart}/{c["n"]}')
+    res.count(f"failure:{c['kind']}:{fault}")
+    if 'pos' in c:
+        res.count(f"faultpos:{c['kind']}:{c['fault']}@{c['pos']}")
     if c['kind'] == 'async':
         res.count(f"lanes:{c['lanes']}")
     bad = monitor_serial(c, o) if c['kind'] == 'serial' else monitor_async(c, o)
     for clause, detail in bad:
-        res.violation(c, f'{clause}: {detail}', signature={'step': c['step'], 'clause': clause}, impl=iv)
+        res.violation(c, f'{clause}: {detail}', signature={'step': c['step'], 'clause': clause, 'failure': fault},
+                      impl=iv)
     if mv != iv:
         res.mismatch(c, mv, iv)
     return len(bad)
 
 
+def stratified(rng, cases, key, per):
+    groups = {}
+    for c in cases:
+        groups.setdefault(key(c), []).append(c)
+    out = []
+    for k in sorted(groups):
+        g = groups[k]
+        out += rng.sample(g, min(len(g), per))
+    return out
+
+
 def run(env, res):
-    res.rule = ('directed: every exit-code vector over {0,1,3} for 1-4 commands x configuration shapes (single string, '
-                'expanded map, flat list, list of maps, run: list, mixed lists, nested serial sub-lists) x save '
-                'off/text/bytes x cmd/shell; for cmds/shells every cut of 1-4 commands into lanes x every lane '
-                'permutation as completion schedule (round-robin and lane-major). quick = seeded sample of that set; '
-                'then a random stream with arbitrary schedules. Every case runs real subprocesses; non-trivial = all')
+    res.rule = ('directed A: every exit-code vector over {0,1,3} for 1-4 commands x configuration shapes (single string, '
+                'expanded map, flat list, list of maps with own save flags, run: list, mixed lists, nested serial '
+                'sub-lists) x save off/text/bytes x cmd/shell; for cmds/shells every cut of 1-4 commands into lanes x '
+                'every lane permutation as completion schedule (round-robin and lane-major). directed B: one signal '
+                'death (SIGKILL/SIGTERM/SIGINT: negative return code) or one unstartable command (no such executable, '
+                'not executable, unsplittable instruction, missing cwd) at each position of 1-4 commands (top level; '
+                'first/middle/last of run lists and serial sub-lists) x the same shapes, sync and async, with and '
+                'without a later exit 1. quick = seeded sample of A + sample of B stratified by (failure kind, '
+                'position); then a random stream with any mix of outcomes and arbitrary schedules. Every case runs '
+                'real subprocesses (marker files prove which commands started); non-trivial = all')
     ser, asy = serial_cases(env), async_cases(env)
-    res.extra['directed_set'] = {'serial': len(ser), 'async': len(asy)}
+    fser, fasy = serial_fault_cases(env), async_fault_cases(env)
+    res.extra['directed_set'] = {'serial': len(ser), 'async': len(asy), 'serial_faults': len(fser),
+                                 'async_faults': len(fasy)}
     if env.quick:
         def allzero(c):
-            return all(p['code'] == 0 for p in (impl.all_procs_serial(c['cfg']) if c['kind'] == 'serial'
-                                                else impl.all_procs_async(c['cfg'])).values())
+            return all(not failed(p) for p in case_procs(c).values())
         zs, za = [c for c in ser if allzero(c)], [c for c in asy if allzero(c)]
         ser = env.rng.sample(zs, min(len(zs), 30)) + env.rng.sample(ser, min(len(ser), 150))
         asy = env.rng.sample(za, min(len(za), 30)) + env.rng.sample(asy, min(len(asy), 140))
-        rnd = random_cases(env, 40)
+        key = lambda c: (c['step'], c['fault'], c['pos'])
+        fser = stratified(env.rng, fser, key, 12)
+        fasy = stratified(env.rng, fasy, key, 8)
+        rnd = random_cases(env, 150)
     else:
-        rnd = random_cases(env, 400)
-    execute(env, res, ser + asy + rnd)
+        rnd = random_cases(env, 1200)
+    execute(env, res, fser + fasy + ser + asy + rnd)
 
 
 def replay(env, res, case):
